@@ -149,10 +149,13 @@ package slog
 
 //@ func SetLevel
 //@   props C10
-//@   requires !isnil(defaultLog)
+//@   dispatch Logger
+//@   requires typeis(defaultLog, *logimp) && dyn(defaultLog, *logimp) != nil && dyn(defaultLog, *logimp).Entry != nil
 //@   assigns everything
 //@   maypanic
-//@   ensures [C10.default-set] lvlCurrent == lvl
+//@   keeps Entry.name, Entry.owner, Entry.items, Entry.useJSON, Entry.useColor, Entry.timeLayout, Entry.modeUTC, Entry.attrs, Entry.writer, Entry.valueStringer, Entry.handlerOpt, Entry.extraFrames, Entry.contextKeys, dualWriter.*, map[string]*Entry
+//@   keeps Entry.level except old(dyn(defaultLog, *logimp).Entry)
+//@   ensures [C10.default-set] lvlCurrent == lvl && dyn(defaultLog, *logimp).Entry.level == lvl
 //@   at call (Logger).SetLevel assert [C10.default-forward] callee.self == defaultLog && callee.a0 == lvl
 
 //@ func GetLevel
